@@ -149,7 +149,7 @@ PROPS["C04"] = {
              "each in its own generated segmentation), each delivered completely or abandoned by an error: connection size limit placed inside a body (413 path), a later chunk-size line made "
              "invalid, both Content-Length and Transfer-Encoding, or one near-well-formed mutation. The reused parser is driven with the callers' reset discipline; each element is also given "
              "to a fresh parser in the same segmentation and outcomes are compared after every feed. Non-trivial = some non-last element has a body in progress or a Cookie/Set-Cookie header "
-             "and the next element has a different framing kind; distinct = hash of the history and limit. Server-level stage: one complete request in five follows a request whose handler arms a response time-out (timeoutAfter 60 ms) and parks the writer, and is written with a pause spanning that expiry. While a history runs, a companion keeps two other connections of the endpoint (both workers; a thread each) busy with one valid request carrying a Date, cookies, a content type, Accept and Cache-Control: every answer must be the 200 with the digest of a fresh parse."),
+             "and the next element has a different framing kind; distinct = hash of the history and limit. Server-level stage: one complete request in five follows a request whose handler arms a response time-out (timeoutAfter 60 ms) and parks the writer, and is written with a pause spanning that expiry. While a history runs, a companion keeps two other connections of the endpoint (both workers; a thread each) busy with one valid request carrying a Date, cookies, a content type, Accept and Cache-Control: every answer must be the 200 with the digest of a fresh parse. One history in four is made of large messages: every well-formed Content-Length element gets 5000 more body bytes, is delivered in pieces of at most 1500 bytes, and the limit is 8192 - each message fits, two together do not."),
     "engine": "rapidcheck+libFuzzer",
     "technique": "property-based testing (rapidcheck) and libFuzzer over generated message histories: differential oracle reused-parser vs fresh-parser after every feed (stateful, whole history shrinks as one value)",
     "level_text": "Generated histories with a differential oracle (same element, same segmentation, fresh parser). Exploration only.",
